@@ -1,4 +1,5 @@
 // ---- the Method trait with its contract (signatures extracted from src/core/method.rs) ----
+#[derive(Debug)]
 //@extract src/core/errors.rs enum:Error
 //@end
 
